@@ -2,27 +2,37 @@
    Model: TcTop.typecheck (the worker's computation, with Go panics and runaway recursion as values)
    run under TcDriver's caller/worker protocol.  Statements only; proofs in proofs/TcEnv.v,
    proofs/TcTotal.v, proofs/TcDriverProofs.v, proofs/C09Main.v.
-   The premise `equal_terminates_stmt` is a fact about package `types` (EqualType returns on
-   well-formed types in a well-formed environment) that C08 establishes; it is an explicit premise
-   here, not an axiom.  (That AddMissingModalities returns is proved: proofs/TcInferFuel.v.) *)
+   proofs/TcTotal.v takes two facts about package `types` as Section hypotheses (EqualType and
+   AddMissingModalities return); both are proved for the model's current definitions in
+   proofs/TcEqFuel.v and proofs/TcInferFuel.v and instantiated in proofs/C09Main.v, so the theorems
+   below have no premise.  The `_given` variants keep EqualType's termination as an explicit premise
+   (stated over TcDeps' boolean checks), for the case that TcDeps.equal_type is replaced by C08's. *)
 Require Import Grits.Base Grits.ModeDefs Grits.STypes Grits.Forms Grits.Infer Grits.TcDeps Grits.Expand
                Grits.Tc Grits.TcTop Grits.TcDriver
-               Grits.proofs.TcEnv Grits.proofs.TcTotal Grits.proofs.TcDriverProofs Grits.proofs.TcInferFuel Grits.proofs.C09Main.
+               Grits.proofs.TcEnv Grits.proofs.TcTotal Grits.proofs.TcDriverProofs Grits.proofs.TcInferFuel Grits.proofs.TcEqFuel Grits.proofs.C09Main.
 
 (* the worker's computation: for every program the parser accepts (in fact for every program) no
    modelled Go panic is reached and no fuel (Unfold, isContractive) runs out *)
-Theorem C09_tc_total : equal_terminates_stmt ->
+Theorem C09_tc_total :
+  forall p, parsed p -> (forall w, typecheck p <> RejectInternal w) /\ (forall w, typecheck p <> Diverge w).
+Proof. exact tc_total_closed. Qed.
+
+Theorem C09_tc_total_given : equal_terminates_stmt ->
   forall p, parsed p -> (forall w, typecheck p <> RejectInternal w) /\ (forall w, typecheck p <> Diverge w).
 Proof. exact tc_total_1. Qed.
 
-Theorem C09_tc_total_all_programs : equal_terminates_stmt ->
+Theorem C09_tc_total_all_programs :
   forall p, (forall w, typecheck p <> RejectInternal w) /\ (forall w, typecheck p <> Diverge w).
-Proof. exact tc_total_all_1. Qed.
+Proof. exact tc_total_all_closed. Qed.
 
 (* SanityChecksTypeDefinitions by itself (no premise): never panics on an undefined label, never
    recurses without bound *)
 Theorem C09_sanity_typedefs_total : forall D, exists b, sanity_typedefs D = Ok b.
 Proof. exact sanity_typedefs_total. Qed.
+
+(* EqualType always returns (the two-level fuel handed to innerEqualType suffices) *)
+Theorem C09_equal_type_total : forall D s t, exists b, equal_type D s t = Ok b.
+Proof. exact equal_type_total. Qed.
 
 (* AddMissingModalities always returns (the fuel handed to inferModality suffices) *)
 Theorem C09_add_missing_total : forall D t, exists t', add_missing D t = Ok t'.
@@ -50,7 +60,7 @@ Theorem C09_tc_protocol : forall (A : Type) (res : tcr A), (forall w, res <> THa
 Proof. exact (@tc_protocol). Qed.
 
 (* both halves together *)
-Theorem C09_typecheck_total : equal_terminates_stmt -> forall p, parsed p ->
+Theorem C09_typecheck_total : forall p, parsed p ->
   (forall w, typecheck p <> RejectInternal w) /\ (forall w, typecheck p <> Diverge w) /\
   exists r0,
     typecheck_returns p = Some r0 /\
@@ -64,7 +74,7 @@ Theorem C09_typecheck_total : equal_terminates_stmt -> forall p, parsed p ->
       (forall r, wrk s = WHasResult r -> buf s = None /\ exists s', step (tc_program p) s LSend s') /\
       (wrk s = WDoneSent -> (exists s', step (tc_program p) s LExit s') /\
                             forall l s', step (tc_program p) s l s' -> l = LExit \/ (l = LRecv /\ wrk s' = WDoneSent)).
-Proof. exact typecheck_total. Qed.
+Proof. exact typecheck_total_closed. Qed.
 
 (* why the first half is needed: a diverging computation kills the host *)
 Theorem C09_overflow_crashes_host : forall (A : Type) (res : tcr A) w, res = THang w ->
@@ -143,6 +153,7 @@ Proof.
 Qed.
 
 Print Assumptions C09_tc_total.
+Print Assumptions C09_equal_type_total.
 Print Assumptions C09_tc_total_all_programs.
 Print Assumptions C09_tc_protocol.
 Print Assumptions C09_typecheck_total.
